@@ -17,13 +17,15 @@ import (
 	"fmt"
 	"io/ioutil"
 	"sort"
+	"strconv"
 	"strings"
+	"sync"
 	"time"
 
 	"github.com/alibaba/RedisShake/pkg/libs/log"
 	"github.com/alibaba/RedisShake/pkg/redis"
-	"github.com/alibaba/RedisShake/redis-shake/dbSync"
 	conf "github.com/alibaba/RedisShake/redis-shake/configure"
+	"github.com/alibaba/RedisShake/redis-shake/dbSync"
 	"github.com/alibaba/RedisShake/redis-shake/filter"
 )
 
@@ -104,9 +106,9 @@ type c13Cfg struct{ wl, bl []string }
 var c13Cfgs = []c13Cfg{
 	{wl: []string{"p:", "white"}},
 	{bl: []string{"q:", "black"}},
-	{wl: []string{"p:"}, bl: []string{"q:"}},      // blacklist decides, whitelist is ignored
-	{wl: []string{"p:"}, bl: []string{"p:x"}},     // overlapping
-	{wl: []string{"\xff\x00k", "p:", "pp"}},       // binary prefix, several prefixes
+	{wl: []string{"p:"}, bl: []string{"q:"}},  // blacklist decides, whitelist is ignored
+	{wl: []string{"p:"}, bl: []string{"p:x"}}, // overlapping
+	{wl: []string{"\xff\x00k", "p:", "pp"}},   // binary prefix, several prefixes
 	{bl: []string{"q:", "q:q", "\x00"}},
 	{wl: []string{"a"}, bl: []string{"q:", "redis"}},
 }
@@ -276,7 +278,53 @@ func c13SyncSpecial(cmd string) bool {
 	return false
 }
 
+// genC13Par: several streams filtered at the same moment under one key filter
+func genC13Par(g *gen) {
+	n := g.pick(40, 600)
+	for i := 0; i < n; i++ {
+		wl, bl := "-", hx([]byte("drop:"))
+		if i%3 == 0 {
+			wl, bl = hx([]byte("keep:")), "-"
+		}
+		key := func() string {
+			pre := []string{"keep:", "drop:", "other:"}[g.r.Intn(3)]
+			return hx([]byte(pre + strconv.Itoa(g.r.Intn(100))))
+		}
+		var toks []string
+		for c := 0; c < 2+g.r.Intn(5); c++ {
+			var name string
+			var args []string
+			switch g.r.Intn(4) {
+			case 0:
+				name = "del"
+				for k := 0; k < 2+g.r.Intn(30); k++ {
+					args = append(args, key())
+				}
+			case 1:
+				name = "mset"
+				for k := 0; k < 1+g.r.Intn(12); k++ {
+					args = append(args, key(), hx([]byte("v"+strconv.Itoa(k))))
+				}
+			case 2:
+				name = "brpop"
+				for k := 0; k < 1+g.r.Intn(8); k++ {
+					args = append(args, key())
+				}
+				args = append(args, hx([]byte("0")))
+			default:
+				name = "unlink"
+				for k := 0; k < 1+g.r.Intn(20); k++ {
+					args = append(args, key())
+				}
+			}
+			toks = append(toks, hx([]byte(name))+":"+strings.Join(args, ","))
+		}
+		g.emit("p %s %s %s", wl, bl, strings.Join(toks, " "))
+	}
+}
+
 func genC13(g *gen) {
+	genC13Par(g)
 	// the commands: what the running table holds, plus the 65 names of the command reference
 	names := map[string]bool{}
 	for _, r := range filter.VerifRedisCommands() {
@@ -499,6 +547,54 @@ func runC13(f []string) string {
 	conf.Options.FilterKeyWhitelist = c13ParseList(f[1])
 	conf.Options.FilterKeyBlacklist = c13ParseList(f[2])
 	switch f[0] {
+	case "p":
+		// p <wl> <bl> <cmd>:<arg>,<arg>… <cmd>:…    every command filtered 400 times in a goroutine of its own, all at once —
+		// one parseSourceCommand goroutine per source node does exactly that; each must get its own answer every time
+		type pc struct {
+			cmd  string
+			args [][]byte
+		}
+		var cs []pc
+		for _, t := range f[3:] {
+			p := strings.SplitN(t, ":", 2)
+			if len(p) != 2 {
+				return "badcase"
+			}
+			cs = append(cs, pc{string(unhx(p[0])), c13Args(strings.Split(p[1], ","))})
+		}
+		res := make([]string, len(cs))
+		var wg sync.WaitGroup
+		start := make(chan struct{})
+		for i := range cs {
+			wg.Add(1)
+			go func(i int) {
+				defer wg.Done()
+				defer func() {
+					if e := recover(); e != nil {
+						res[i] = "panic"
+					}
+				}()
+				<-start
+				for it := 0; it < 400; it++ {
+					args := make([][]byte, len(cs[i].args))
+					copy(args, cs[i].args)
+					na, reject := filter.HandleFilterKeyWithCommand(cs[i].cmd, args)
+					r := "drop"
+					if !reject {
+						r = c13Render("fwd", na)
+					}
+					if it == 0 {
+						res[i] = r
+					} else if r != res[i] {
+						res[i] = "unstable:" + res[i] + "/" + r
+						return
+					}
+				}
+			}(i)
+		}
+		close(start)
+		wg.Wait()
+		return strings.Join(res, " | ")
 	case "d":
 		cmd := string(unhx(f[3]))
 		args := c13Args(f[4:])
